@@ -1,7 +1,7 @@
 #!/venv/bin/python
 """Confirm an independently written breaking change and run the checks on it.
 
-usage: tools/verify_seed.py <ID> <k> [--tier quick] [--also C10,C12]
+usage: tools/verify_seed.py <ID> <k> [--tier quick] [--also C10,C12] [--round 2]
 reads  /tmp/seed_<ID>/patch<k>.diff, demo<k>.py, notes<k>.md
 does   1. fresh scratch copy of /repo's HEAD tree (outside /repo and /verif)
        2. demo on the clean copy must PASS (exit 0)
@@ -25,11 +25,12 @@ def main():
     pid, k = sys.argv[1].upper(), sys.argv[2]
     tier = sys.argv[sys.argv.index("--tier") + 1] if "--tier" in sys.argv else "quick"
     also = sys.argv[sys.argv.index("--also") + 1].split(",") if "--also" in sys.argv else []
-    src = f"/tmp/seed_{pid}"
+    rnd = sys.argv[sys.argv.index("--round") + 1] if "--round" in sys.argv else "1"
+    src = f"/tmp/seed_{pid}" if rnd == "1" else f"/tmp/seed{rnd}_{pid}"
     patch = os.path.join(src, f"patch{k}.diff")
     demo = os.path.join(src, f"demo{k}.py")
     notes = os.path.join(src, f"notes{k}.md")
-    meta = {"property": pid, "variant": k, "tier": tier}
+    meta = {"property": pid, "variant": k, "tier": tier, "round": int(rnd)}
     tmp = tempfile.mkdtemp(prefix="gscrib-seed-")
     try:
         tree = os.path.join(tmp, "repo")
@@ -73,7 +74,7 @@ def main():
                                    "caught": r.returncode == 1 and "VIOLATION property=" in out,
                                    "wall_s": round(time.time() - t0, 1),
                                    "first_message": msg[0][:400] if msg else None}
-        dst = os.path.join(ROOT, "seeded", f"{pid}-{k}")
+        dst = os.path.join(ROOT, "seeded", f"{pid}-{k}" if rnd == "1" else f"{pid}-r{rnd}-{k}")
         os.makedirs(dst, exist_ok=True)
         shutil.copy(patch, os.path.join(dst, "patch.diff"))
         shutil.copy(demo, os.path.join(dst, "demo.py"))
